@@ -959,9 +959,18 @@ pub fn check_tp(case: &TpCase, obs: &mut Obs) {
                         }
                         Init::Vapor if two_branches => {
                             let ru = scan.roots[1].rho;
-                            obs.ensure(rho < ru, || {
-                                format!("Vapor hint: returned rho={rho:e} is above the unstable root {ru:e}; vapour root {:e} exists (T={tr:.4} K, p={p:e})", scan.roots[0].rho)
-                            });
+                            let msg = format!("Vapor hint: returned rho={rho:e} is above the unstable root {ru:e}; vapour root {:e} exists (T={tr:.4} K, p={p:e})", scan.roots[0].rho);
+                            obs.count();
+                            if !(rho < ru) {
+                                // signature of the open finding: the ideal-gas start density p/(kT) of the
+                                // Vapor initialisation lies beyond the vapour branch (above the unstable root)
+                                if p / tr > ru {
+                                    obs.class("known signature: Vapor hint with the ideal-gas start beyond the vapour branch");
+                                    obs.known_or_fail("C03/vapor-hint-start-beyond-vapour-branch", msg);
+                                } else {
+                                    obs.fail(msg);
+                                }
+                            }
                         }
                         Init::Liquid if two_branches => {
                             let ru = scan.roots[1].rho;
